@@ -5,7 +5,7 @@
    Models: C04_Model.v (machine level: int64 arithmetic, nil dereference, the tiny code paths, the wide facade),
    LRUOps.v (ideal LRU: recency list + trim).  This file contains statements closed by `exact` only. *)
 From Coq Require Import ZArith List Lia Bool Permutation.
-Require Import LRU Shard LRUOps C04_Model C04_Refine C04_Wide C04_Theorems C04_Check C04_Burst C04_Sia C04_Rem.
+Require Import LRU Shard LRUOps C04_Model C04_Refine C04_Wide C04_Theorems C04_Check C04_Burst C04_Sia C04_Rem C04_Stat.
 Import ListNotations.
 Open Scope Z_scope.
 
@@ -178,6 +178,13 @@ Theorem c04_rem_every_linearisation : forall v cap0 ops,
   evs c = Z.of_nat (length reported) /\ size c = total (lst c) /\ size c <= cap c /\ NoDup (keys_of c).
 Proof. exact rem_every_linearisation. Qed.
 
+(* Stats() read while others write items that all have size c: every state of every history has Size = c * Length <=
+   capacity, so an answer that is one state of the cache satisfies it (the tiny cache: Size = Length, c04_size_bound) *)
+Theorem c04_uniform_size : forall cap0 c ops, cap_dom cap0 -> Forall op_dom ops -> Forall (op_sized c) ops ->
+  let cc := fst (mrun VStd (new_lru cap0) ops) in
+  size cc = c * Z.of_nat (length (lst cc)) /\ size cc <= cap cc.
+Proof. exact uniform_size. Qed.
+
 (* non-vacuity: the hypotheses are satisfiable and the operations do evict (sized, tiny, wide) *)
 Theorem c04_demo_sized :
   let ops := [Set_ 1 10 2; Set_ 2 20 2; Get 1; Set_ 3 30 2; Peek 1; Exist 2; SetAndGetRemoved 1 11 4; Set_ 4 40 9; Set_ 5 50 1; Set_ 6 60 1;
@@ -234,6 +241,7 @@ Print Assumptions c04_burst_writes_wf.
 Print Assumptions c04_sia_every_linearisation.
 Print Assumptions c04_first_insert_is_never_replaced.
 Print Assumptions c04_rem_every_linearisation.
+Print Assumptions c04_uniform_size.
 Print Assumptions c04_demo_sized.
 Print Assumptions c04_demo_tiny.
 Print Assumptions c04_demo_wide.
